@@ -8,5 +8,6 @@ func main() {
 		"delta": deltaMode,
 		"probe": probeMode,
 		"sharedpoll": sharedPollMode,
+		"mapdelta":   mapDeltaMode,
 	})
 }
